@@ -112,10 +112,19 @@ int expect(const Geo& g, const Point64& p, double ad, JoinType jt, EndType et, d
   return -1;
 }
 
+// route by which the offset is obtained (chosen per case): 0 Execute(delta, Paths64&) on a fresh object, 1 Execute into a
+// PolyTree64 (flattened), 2 one object executed into a tree first and into paths afterwards, 3 the InflatePaths function
+int g_route = 0;
 Paths64 offset(const Paths64& paths, double delta, JoinType jt, EndType et, double ml, double at, bool rev) {
+  if (g_route == 3 && !rev) return InflatePaths(paths, delta, jt, et, ml, at);
   ClipperOffset co(ml, at, false, rev);
   co.AddPaths(paths, jt, et);
   Paths64 sol;
+  if (g_route == 1 || g_route == 2) {
+    PolyTree64 tree;
+    co.Execute(delta, tree);
+    if (g_route == 1) return PolyTreeToPaths64(tree);
+  }
   co.Execute(delta, sol);
   return sol;
 }
@@ -130,6 +139,8 @@ bool domainOk(const Paths64& paths) {
 
 Verdict judge(const Case& c) {
   Verdict v;
+  g_route = (int)c.I("route", 0);
+  ST.count("route_" + std::to_string(g_route));
   const Paths64& paths = c.P("paths");
   if (paths.empty() || c.P("samples").empty() || !domainOk(paths) || O::maxAbs(paths) > (int64_t(1) << 40)) { v.discard = true; return v; }
   double ad = std::fabs(c.D("delta")), ml = c.D("ml", 2.0), at = c.D("at", 0.0);
@@ -202,6 +213,7 @@ Case gen() {
   c.d["ml"] = G::chance(20) ? G::real(0.0, 1.0) : G::real(1.0, 5.0);
   c.d["at"] = G::coin() ? 0.0 : G::real(0.05, 3.0);
   c.i["rev"] = G::range(0, 1);
+  c.i["route"] = G::chance(40) ? 0 : G::range(1, 3);
   double kf = std::max(c.d["ml"], std::sqrt(2.0));
   int n = (int)G::range(1, 4);
   Paths64 paths;
